@@ -27,6 +27,8 @@ var c14IdentOpt = regexp.MustCompile(`\.\?+(\.|\[|$)`)
 // leading zeros of an integer inside brackets carry no meaning; a printer may drop them
 var c14LeadingZeros = regexp.MustCompile(`([\[:]-?)0+([0-9])`)
 
+var c14BracketGrammar = regexp.MustCompile(`^(|-?[0-9]+|-?[0-9]*:-?[0-9]*)$`)
+
 func c14Normalise(s string) string {
 	for {
 		n := c14IdentOpt.ReplaceAllString(s, ".$1")
@@ -98,7 +100,7 @@ func c14SelectorSub() *engine.Sub {
 	return &engine.Sub{
 		Name:   "selector-text",
 		Repeat: true,
-		Rule:   `every string over {. [ ] " ? : - 0 1 a _ \ * space} up to the length bound offered to selector.Parse, plus 12 quoted field names made of bytes outside ASCII (not UTF-8, ending inside a character, U+FFFD, composed / decomposed spellings) in 6 selector shapes, and 19 integers at and beyond 2^31, 2^32, 2^53, 2^63, 2^64, 2^65 and 2^128 (also n + 2^64 for small n) as index and slice bounds in 9 shapes; for every accepted string: printing reproduces the text (up to '?' after an identity dot), the printed text parses to the same segments with identical Select results on 33 values, and every segment re-parsed alone has the same meaning; non-trivial = accepted strings`,
+		Rule:   `every string over {. [ ] " ? : - 0 1 a _ \ * space} up to the length bound offered to selector.Parse, plus every bracket content of up to 6 symbols over {0 1 - :} with two or more colons (in .[...] and .a[...]?), plus 12 quoted field names made of bytes outside ASCII (not UTF-8, ending inside a character, U+FFFD, composed / decomposed spellings) in 6 selector shapes, and 19 integers at and beyond 2^31, 2^32, 2^53, 2^63, 2^64, 2^65 and 2^128 (also n + 2^64 for small n) as index and slice bounds in 9 shapes; for every accepted string: printing reproduces the text (up to '?' after an identity dot), the printed text parses to the same segments with identical Select results on 33 values, every segment re-parsed alone has the same meaning, and every unquoted bracket is empty, one integer or lo:hi with one colon (an independent three-line grammar); non-trivial = accepted strings`,
 		Bound: func(t string) string {
 			return fmt.Sprintf("all strings of length <=%d over 14 symbols", tierN(t, 5, 8))
 		},
@@ -125,6 +127,13 @@ func c14SelectorSub() *engine.Sub {
 					}
 				}
 			}
+			// bracket contents over {0 1 - :} with two or more colons (a third slice part, a step): all of them, in two positions
+			allStrings([]string{"0", "1", "-", ":"}, 6, func(in string) bool {
+				if strings.Count(in, ":") < 2 {
+					return true
+				}
+				return emit(&c14SelCase{S: ".[" + in + "]"}) && emit(&c14SelCase{S: ".a[" + in + "]?"})
+			})
 			for _, name := range c14ByteNames {
 				for _, form := range []string{`.["%s"]`, `.a["%s"]`, `.["%s"]?`, `.["%s"][0]`, `.["%s"]["%s"]`, `.["a"]["%s"]?[1:]`} {
 					t := strings.ReplaceAll(form, "%s", name)
@@ -216,6 +225,13 @@ func c14SelectorSub() *engine.Sub {
 			for _, sg := range sel {
 				if sg.Identity() {
 					continue
+				}
+				// a bracket that is not a quoted name holds nothing, one integer, or two optional integers around ONE colon
+				if b := strings.TrimSuffix(sg.String(), "?"); strings.HasPrefix(b, "[") && strings.HasSuffix(b, "]") && !strings.HasPrefix(b, `["`) {
+					if in := b[1 : len(b)-1]; !c14BracketGrammar.MatchString(in) {
+						ctx.Failf(cs, "selector/accepted-outside-grammar", "Parse(%q) accepted the bracket segment %q, which is neither empty, an integer, nor lo:hi - it is read as %+v, so part of it means nothing", cs.S, sg.String(), viewOf(selector.Selector{sg}))
+						return
+					}
 				}
 				t := sg.String()
 				if !strings.HasPrefix(t, ".") {
